@@ -7,6 +7,7 @@
 -/
 import Otr.Conv
 import Proofs.Msg
+import Proofs.KeyFile
 namespace Otr.C17
 open Otr
 
@@ -210,5 +211,14 @@ example : extractMPI (appendMPI [] 65537 ++ [9]) = some (65537, [9]) :=
   mpi_roundtrip 65537 [9] (mpi_fits 65537 3 (by decide) (by decide))
 example : PlainDataMsg.deserialize (PlainDataMsg.serialize ⟨[104, 105], [⟨0, 2, [0, 0]⟩, ⟨6, 0, []⟩]⟩)
     = (⟨[104, 105], [⟨0, 2, [0, 0]⟩, ⟨6, 0, []⟩]⟩, true) := by decide
+
+/-! libotr key file / s-expression reader (Otr.Sexp, Otr.KeyFile; profile `keyfile`) -/
+theorem keyfile_roundtrip : type_of% @Otr.keyfile_roundtrip := @Otr.keyfile_roundtrip
+
+theorem parseBigHex_fmtX : type_of% @Otr.parseBigHex_fmtX := @Otr.parseBigHex_fmtX
+
+theorem parsePrivateKey_roundtrip : type_of% @Otr.parsePrivateKey_roundtrip := @Otr.parsePrivateKey_roundtrip
+
+theorem serialize_parsePrivateKey : type_of% @Otr.serialize_parsePrivateKey := @Otr.serialize_parsePrivateKey
 
 end Otr.C17
